@@ -131,6 +131,13 @@ pub fn replay_script(script_name: &str, path: &[String]) -> i32 {
         let _ = from;
         println!("{:4} {}", i, want);
     }
+    if path.is_empty() {
+        // no recorded path: the default schedule (first enabled transition) to quiescence
+        match w.run_to_quiescence(5000) {
+            Ok(n) => println!("default schedule: quiet after {} steps", n),
+            Err(e) => println!("default schedule: {}", e),
+        }
+    }
     println!("messages on the links, in order:");
     for (f, t, m) in w.traffic.iter() {
         println!("   n{} -> n{}  {}", f + 1, t + 1, m);
